@@ -269,6 +269,24 @@ def check_tf(spec, ctx):
                                    (fh, fts[0], types), sig="hide_jacobian", case_text=caseh)
                 strata.append("hide")
 
+    # ---------------- hideJacobian alone (no subtractAppliedForce), late convention: Colvars then applies the compensating force
+    # itself, and what it reports at the next step carries no temperature-dependent term ("hidden on request")
+    if jac is not None and spec["hide"]:
+        linesh = [gen.config_block(cfg(spec, hide=True)), gen.pos_line(pos), fsys_line(g1), "step", gen.pos_line(pos), "step"]
+        rh0, caseh0 = run(linesh, tf=2, T=0.0)
+        rh3, caseh3 = run(linesh, tf=2, T=300.0)
+        if rh0.crashed or rh3.crashed:
+            return Outcome(False, msg="crash with hideJacobian", sig="crash", case_text=caseh3)
+        if rh0.of("config")[0]["rc"] == 0 and rh3.of("config")[0]["rc"] == 0:
+            f0 = rh0.of("step")[1]["cv"][0]["ft"][0]
+            f3 = rh3.of("step")[1]["cv"][0]["ft"][0]
+            if abs(f3 - f0) > 1e-8 * max(1.0, abs(f0), abs(KB * 300.0 * jac)):
+                return Outcome(False, msg="hideJacobian (late convention, applied forces fed back): total force %r at 300 K, %r at 0 K: a "
+                               "temperature-dependent term of %r is left (k_B T dJ = %r) [types %s]" % (f3, f0, f3 - f0, KB * 300.0 * jac, types),
+                               sig="hide_jacobian_alone", case_text=caseh3)
+            if jac != 0.0:
+                strata.append("hide_alone")
+
     # ---------------- (timing / subtractAppliedForce), late convention
     moved = [[pos[i][d] + spec["move"][i][d] for d in range(3)] for i in range(n)]
     extra = {"subtractAppliedForce": "on"} if spec["sub"] else None
@@ -434,5 +452,5 @@ def check_alch(spec, ctx):
 
 
 PARTS["alch"] = {"strategy": spec_alch, "check": check_alch, "examples": {"quick": 2000, "thorough": 20000}, "sample": lambda s: s}
-REQUIRED_STRATA = {"all": ["history:hist:sub", "history:hist:nosub", "history:hist:switch_off", "totalforce:type:eigenvector",
+REQUIRED_STRATA = {"all": ["history:hist:sub", "history:hist:nosub", "history:hist:switch_off", "totalforce:type:eigenvector", "totalforce:hide_alone",
                            "alch:alch:sub", "alch:alch:nosub", "alch:alch:harmonic", "alch:alch:linear"]}
